@@ -891,7 +891,23 @@ c16s_run(const c16s_scn *scn, c16s_out *out) {
 		usleep(1500);
 		out->hang |= s_call(s_fence_cb, NULL);
 	}
-	if (0 == out->start_rc && !out->hang) {
+	if (0 == out->start_rc && !out->hang && 0 != scn->final_reset) {
+		/* the peer has unread input when it closes: our end is reset while its last payload is still queued */
+		int tries;
+		out->hang |= s_call(s_enable_cb, NULL);
+		(void)!send(gs_sp[0], "abc", 3, MSG_DONTWAIT | MSG_NOSIGNAL);
+		s_peer_write((size_t)scn->final_reset);
+		close(gs_sp[1]);
+		gs_sp[1] = -1;
+		for (tries = 0; tries < 40; tries ++) {
+			if (0 == tp_wait_until(&gs_stopped, 1, CEIL_MS / 80))
+				break;
+			out->hang |= s_call(s_enable_cb, NULL);
+		}
+		if (40 == tries)
+			out->never_reported |= 4;
+		out->hang |= s_call(s_fence_cb, NULL);
+	} else if (0 == out->start_rc && !out->hang) {
 		/* the stream goes on: the task (re-enabled if it was paused) must report the next full window */
 		int tries;
 		out->hang |= s_call(s_enable_cb, NULL);
@@ -907,7 +923,8 @@ c16s_run(const c16s_scn *scn, c16s_out *out) {
 		out->hang |= s_call(s_fence_cb, NULL);
 	}
 	out->hang |= s_call(s_final_cb, NULL);
-	(void)!send(gs_sp[1], "late", 4, MSG_DONTWAIT | MSG_NOSIGNAL);
+	if (gs_sp[1] >= 0)
+		(void)!send(gs_sp[1], "late", 4, MSG_DONTWAIT | MSG_NOSIGNAL);
 	out->hang |= s_call(s_fence_cb, NULL);
 	usleep(1500);
 	out->hang |= s_call(s_fence_cb, NULL);
@@ -921,7 +938,8 @@ c16s_run(const c16s_scn *scn, c16s_out *out) {
 	tp_shutdown_wait(g_tp);
 	tp_destroy(g_tp);
 	close(gs_sp[0]);
-	close(gs_sp[1]);
+	if (gs_sp[1] >= 0)
+		close(gs_sp[1]);
 	tp_res_get(&out->res);
 	tp_res_cleanup();
 	g_close_unknown_passthrough = 0;
